@@ -224,6 +224,10 @@ async def run_session(rig, idx, where, cmds, k, results, uidmap, order_log):
             r = await s.cmd(b"APPEND " + box.encode() + b" {%d+}\r\n" % len(m) + m)
         else:
             r = await s.cmd(c)
+            if c.startswith("UID FETCH "):
+                if not hasattr(rig, "uidfetch_log"):
+                    rig.uidfetch_log = []
+                rig.uidfetch_log.append((s.name, c, r.status, [d["UID"] for n, d in r.fetches() if "UID" in d]))
         order_log.append((idx, c))
         outs.append(norm_outcome(c, r, uidmap) + ((f"latency>{int(r.latency)}",) if (r.latency or 0) >= 60 else ()))
         if outs[-1] == ("REFUSED", "BYE"):
@@ -367,6 +371,22 @@ async def one_run(loop, ctx, cmdset, mode, order=None):
         for s_ in rig.sessions:
             s_.pump()
         info["view_errors"] = [e for s_ in rig.sessions for e in s_.view_errors]
+        # every (UID, content id) pair any session was shown, with the mailbox it had selected (C03's scheduled tier)
+        pairs = []
+        sel = {f"C{idx}x": where for idx, (where, cmds) in enumerate(cmdset)}
+        for s_ in rig.sessions:
+            if s_.name not in sel or sel[s_.name] in (None, "pop3"):
+                continue
+            for r_ in s_.responses:
+                if r_.kind == "num" and r_.name == "FETCH":
+                    d_ = dict(r_.data)
+                    hdr = d_.get("BODY[HEADER.FIELDS (X-CID)]")
+                    body = d_.get("BODY[]")
+                    m_ = re.search(rb"X-CID:\s*(\S+)", bytes(hdr or body or b""))
+                    if "UID" in d_ and m_:
+                        pairs.append((s_.name, sel[s_.name], d_["UID"], m_.group(1).decode()))
+        info["uid_cid_pairs"] = pairs
+        info["uid_fetch_log"] = getattr(rig, "uidfetch_log", [])
         info["view_events"] = rig.counts.get("view_monitor_events", 0)
         return results, fs, info
     finally:
